@@ -110,7 +110,7 @@ static void c05_check_result (OrcProgram *p, OrcCompileResult res, OrcTarget *t,
       snprintf (what, sizeof what, "successful result on %s but no code", t->name);
       c05_viol ("ok-without-code", what, ps, t->name, flags, caseidx);
     }
-    if (valid_spec && p->orccode && !program_uses_special_or_big (ps)) { tiny_emulate (p, 5); vh_count ("c05.emulated_after_ok", 1); }
+    if (ps && p->orccode && !program_uses_special_or_big (ps)) { tiny_emulate (p, 5); vh_count (valid_spec ? "c05.emulated_after_ok" : "c05.emulated_mutated_after_ok", 1); }
   } else {
     /* neither fatal nor successful: must be runnable by emulation */
     if (!p->orccode) {
@@ -119,7 +119,7 @@ static void c05_check_result (OrcProgram *p, OrcCompileResult res, OrcTarget *t,
     } else if (p->code_exec != (void *) orc_executor_emulate && p->code_exec != p->backup_func) {
       snprintf (what, sizeof what, "result %#x on %s but code_exec is neither the emulator nor the backup function", res, t->name);
       c05_viol ("nonfatal-bad-exec", what, ps, t->name, flags, caseidx);
-    } else if (valid_spec && !program_uses_special_or_big (ps)) { tiny_emulate (p, 5); vh_count ("c05.emulated_after_nonfatal", 1); }
+    } else if (ps && !program_uses_special_or_big (ps)) { tiny_emulate (p, 5); vh_count (valid_spec ? "c05.emulated_after_nonfatal" : "c05.emulated_mutated_after_nonfatal", 1); }
   }
 }
 
@@ -163,6 +163,7 @@ static void c05_one (ProgSpec *ps, long caseidx, VhRng *r, int valid)
       OrcProgram *p = gen_build (ps);
       OrcCompileResult res;
       res = orc_program_compile_full (p, t, flags);
+      if (vh_args.verbose) { VhBuf tb = { 0 }; gen_print_orc (ps, &tb, NULL, NULL); fprintf (stderr, "c05 case %ld target %s flags %#x result %#x\n%s\n", caseidx, t->name, flags, res, tb.p); free (tb.p); }
       c05_check_result (p, res, t, flags, ps, caseidx, valid);
       orc_program_free (p);
       vh_count ("c05.compiles", 1);
@@ -609,7 +610,7 @@ static int c15_literal_spec (const ProgSpec *ps, ProgSpec *out)
   for (i = 0; i < ps->nvars; i++) if (ps->vars[i].kind == VK_CONST) slots[ns++] = i;
   if (ns == 0 || ns != no) return 0;
   /* two constants of the same size and value are one literal: no text denotes the two-constant program */
-  for (i = 0; i < no; i++) for (j = 0; j < i; j++) if (ps->vars[order[i]].size == ps->vars[order[j]].size && ps->vars[order[i]].value == ps->vars[order[j]].value) return 0;
+  for (i = 0; i < no; i++) for (j = 0; j < i; j++) if (ps->vars[order[i]].size == ps->vars[order[j]].size && ((ps->vars[order[i]].value ^ ps->vars[order[j]].value) & ref_mask (ps->vars[order[i]].size)) == 0) return 0;
   *out = *ps;
   for (i = 0; i < ps->nvars; i++) map[i] = i;
   for (j = 0; j < ns; j++) { out->vars[slots[j]] = ps->vars[order[j]]; map[order[j]] = slots[j]; }
